@@ -56,6 +56,11 @@ SubSeqs(s, n) == LET idx == { S \in SUBSET (1..Len(s)) : Cardinality(S) <= n }
                                           LAMBDA x : x.k # "")
                  IN  { Pick(S) : S \in idx }
 
+\* request-target classes: plain, escapes that must not be decoded or re-encoded, dot and empty segments, empty query,
+\* '+' and %20, repeated keys in client order, ';' inside a query (RFC 3986 allows it), long path
+Targets == { "/", "/a/b", "/a%2Fb", "/a%20b+c", "//double//slash", "/a/../b/./c", "/p?", "/p?x=1&x=2&a=3", "/p?q=a+b%20c", "/p?a=1;b=2",
+             "/p?k=%E4%BD%A0&empty=", "/caf%C3%A9", "/p?url=http%3A%2F%2Fx%2F%3Fy%3D1", "/*", "/p/~user/!$&'()*+,=:@" }
+
 UAs == { <<>>,                                   \* no User-Agent header
          <<"">>, <<"kube-probe/">>, <<"kube-probe/1.26">>, <<"kube-probe">>, <<"Kube-Probe/1.26">>,
          <<" kube-probe/1.26">>, <<"curl/8 kube-probe/1.26">>, <<"kube-probe/1.26 suffix">>,
@@ -81,6 +86,10 @@ Scenarios ==
   \* C15: probe predicate
   { Scenario("probe", p, "normal", pr, FALSE, "vf.test", "absent", ua, pt, m, pa, <<>>) :
       p \in Protos, pr \in BOOLEAN, ua \in UAs, pt \in BOOLEAN, m \in {"GET", "POST"}, pa \in {"/healthz", "/a?x=kube-probe/1"} }
+  \cup
+  \* C08 request-target clause: method, path and query are opaque to the proxy and must arrive as sent
+  { Scenario("target", p, "normal", FALSE, FALSE, "vf.test", "absent", <<"curl/8">>, FALSE, m, pa, <<>>) :
+      p \in Protos, m \in {"GET", "POST", "DELETE", "OPTIONS", "PATCH"}, pa \in Targets }
   \cup
   \* C08 header clause: end-to-end headers kept, hop-by-hop removed, Host
   { Scenario("keep", p, "normal", FALSE, ph, "vf.test", "absent", <<"curl/8">>, FALSE, "GET", "/a", ls) :
